@@ -6,7 +6,8 @@ Props/C04.lean to yield the non-dominated set of the history, one representative
 Observables: the boolean returned by every `add`, the *set* of signed-cost vectors held after every step
 (order and object identity ignored, duplicates counted), after `truncate` the multiset of kept feature
 values.  Regime R1 for Pareto (doubles through phi, exact), R2-exact for epsilon (exact rationals; the cost
-values are bit-identical or well separated, so the scaled comparisons are decided exactly).
+values are bit-identical or at least 1e-14 relative apart - including a stream of nearly tied values with gaps
+1e-13..1e-9 - so the scaled comparisons are decided as in exact arithmetic).
 """
 import itertools
 import math
@@ -38,14 +39,21 @@ def key(ind):
 
 # --------------------------------------------------------------------------- implementation adaptor
 
+SHARED_EPS = [[0.1], [0.5, 2.0], [1.0, 0.01, 3.0], [0.05, 0.05], [1e-3, 7.0]]
+_comparators = {}
+
+
 def make_archive(kind, eps):
+    """Comparator objects are long-lived: one ParetoDominance and one EpsilonDominance per epsilon vector serve every
+    history of the run (histories differ in their number of objectives), as a comparator serves a whole optimisation."""
     from artap.archive import Archive
     from artap.operators import ParetoDominance, EpsilonDominance
-    if kind == "pareto":
-        return Archive(dominance=ParetoDominance())
-    if kind == "default":          # Archive() : EpsilonDominance([0.1, 0.1])
+    if kind == "default":          # Archive() : EpsilonDominance([0.1, 0.1]), itself one shared default instance
         return Archive()
-    return Archive(dominance=EpsilonDominance(epsilons=list(eps)))
+    k = ("pareto",) if kind == "pareto" else tuple(eps)
+    if k not in _comparators or (kind == "eps" and list(eps) not in SHARED_EPS):
+        _comparators[k] = ParetoDominance() if kind == "pareto" else EpsilonDominance(epsilons=list(eps))
+    return Archive(dominance=_comparators[k])
 
 
 def make_ind(ind, k):
@@ -192,14 +200,29 @@ def gen_history(rng, n, m, kind):
 
 
 def separated(inds):
-    """eps stream: every pair of coordinate values is bit-identical or further apart than 1e-6 relative"""
+    """eps stream: every pair of coordinate values is bit-identical or further apart than 1e-14 relative (~45 ulp, far
+    above the rounding error of one division), so that the scaled comparisons are decided as in exact arithmetic"""
     m = len(inds[0][0])
     for d in range(m):
         vs = sorted(set(ind[0][d] for ind in inds))
         for a, b in zip(vs, vs[1:]):
-            if abs(a - b) <= 1e-6 * max(abs(a), abs(b), 1e-300):
+            if abs(a - b) <= 1e-14 * max(abs(a), abs(b), 1e-300):
                 return False
     return True
+
+
+def near_ties(rng, inds):
+    """nearly tied but different values: coordinates moved by relative gaps 1e-13 .. 1e-9 (hundreds to millions of ulps)"""
+    out = []
+    for c, mk, f in inds:
+        c2 = []
+        for v in c:
+            if rng.random() < 0.5:
+                g = 10 ** rng.uniform(-13, -9.05) * rng.choice([-1, 1])
+                v = v * (1 + g) if v != 0 else g
+            c2.append(v)
+        out.append((c2, mk, f))
+    return out
 
 
 def line(kind, eps, inds, size, larger):
@@ -303,13 +326,14 @@ def nontrivial(model):
 
 def run(ctx):
     rng = ctx.rng
-    ctx.rule = ("histories of add operations (Pareto archive, epsilon archive, default-constructed Archive()) over small cost pools "
-                "with repeats, dominating chains, dominated-after-dominating, fronts hit by multi-evicting newcomers, infeasible "
+    ctx.rule = ("histories of add operations (Pareto archive, epsilon archive, default-constructed Archive(); long-lived comparator "
+                "objects shared by histories with different numbers of objectives) over small cost pools, 30% with nearly tied values "
+                "(relative gaps 1e-13..1e-9), with repeats, dominating chains, dominated-after-dominating, fronts hit by multi-evicting newcomers, infeasible "
                 "members, each followed by one truncate; every history is also replayed permuted; non-trivial = at least one "
                 "eviction and one rejection; distinct = distinct (comparator, eps, sequence of phi-encoded signed-cost vectors)")
     ctx.assumptions += ["costs and features: finite floats (features may be +-inf as crowding distances are); NaN excluded",
                         "epsilon archive: markers non-negative (the code produces `not feasible`, a bool) and coordinate values "
-                        "bit-identical or further apart than 1e-6 relative, epsilons positive",
+                        "bit-identical or further apart than 1e-14 relative (a near-tie stream uses gaps 1e-13..1e-9), epsilons positive",
                         "all cost vectors of one history have the same number of objectives"]
     n_hist = 1500 if ctx.quick else 8000
     maxlen = 40 if ctx.quick else 300
@@ -321,12 +345,19 @@ def run(ctx):
         if not ctx.quick and rng.random() < 0.9:
             n = min(n, 80)          # keep the bulk moderate; a tenth goes up to 300
         inds = gen_history(rng, n, m, kind)
+        if rng.random() < 0.3:
+            inds = near_ties(rng, inds)
+            ctx.count("near_tie_histories")
         if kind != "pareto" and not separated(inds):
             ctx.count("eps_history_not_separated_skipped")
             continue
         eps = None
         if kind == "eps":
-            eps = [10 ** rng.uniform(-4, 2) if rng.random() < 0.6 else rng.choice([1.0, 0.5, 0.1, 3.0]) for _ in range(rng.randint(1, m + 1))]
+            if rng.random() < 0.5:
+                eps = rng.choice(SHARED_EPS)
+                ctx.count("eps_shared_comparator")
+            else:
+                eps = [10 ** rng.uniform(-4, 2) if rng.random() < 0.6 else rng.choice([1.0, 0.5, 0.1, 3.0]) for _ in range(rng.randint(1, m + 1))]
         size = rng.randint(0, n + 2) if rng.random() < 0.7 else rng.randint(0, 3)
         larger = rng.random() < 0.6
         cases.append((kind, eps, inds, size, larger))
